@@ -294,6 +294,17 @@ def no_path_cases(ctx, S, ns):
                 s.delete()
         st, evs, extra = events.run_events(m, (1.0, 2.0), S, plain=plain)
         table[f"not a device function: {rname}"] = outcome(st, evs)
+    # (3b) the device function wraps a kernel that is not a tweezer kernel (a plain @move helper handed to device_fn by mistake)
+    helper = kernels.define("@move\ndef not_tweezer(a: float, b: float):\n    g = grid.from_positions([a], [b])\n    return grid.shift(g, 1.0, 0.0)\n")["not_tweezer"]
+    for rname, dec, plain, byparam in ROUTES:
+        call = "f(x, y)" if byparam else "f(1.0, 2.0)"
+        src2 = (f"@move{dec}\ndef main({'x: float, y: float' if byparam else ''}):\n    f = schedule.device_fn(not_tweezer, [0], [0])\n    {call}\n")
+        try:
+            m2 = kernels.define(src2, S=S, not_tweezer=helper)["main"]
+            st, evs, extra = events.run_events(m2, (1.0, 2.0) if byparam else (), S, plain=plain)
+            table[f"device function over a non-tweezer kernel: {rname}"] = outcome(st, evs)
+        except Exception as e:
+            table[f"device function over a non-tweezer kernel: {rname}"] = "raise-at-compile-time"
     # (4) a keyword is missing
     for rname, dec, plain, byparam in ROUTES:
         try:
